@@ -42,6 +42,7 @@ class _Future(Future):
         super(_Future, self).__init__()
         self._me_done_callbacks = []
         self._me_lock = RLock()
+        self._me_cancelling = False
 
     def _me_invoke_callbacks(self):
         for callback in self._me_done_callbacks:
@@ -70,14 +71,33 @@ class _Future(Future):
                 return True
             if self.done():
                 return False
-            if not self._me_cancel():
-                return False
+            self._me_cancelling = True
+            try:
+                if not self._me_cancel():
+                    return False
+            finally:
+                self._me_cancelling = False
             out = super(_Future, self).cancel()
             if out:
                 self.set_running_or_notify_cancel()
         if out:
             self._me_invoke_callbacks()
         return out
+
+    def _me_delegate_cancelled(self):
+        # The future we depend on was cancelled by someone other than us.
+        # It can never provide an outcome, so become cancelled as well
+        # rather than staying pending forever.
+        with self._me_lock:
+            if self._me_cancelling or self.done():
+                # our own cancel() is in progress (or finished) and
+                # takes care of the state change and callbacks
+                return
+            out = super(_Future, self).cancel()
+            if out:
+                self.set_running_or_notify_cancel()
+        if out:
+            self._me_invoke_callbacks()
 
     def _me_cancel(self):
         raise NotImplementedError(
